@@ -262,7 +262,7 @@ PROPS["C03"] = {
 }
 
 PROPS["C02"] = {
-    "files": ["region/fakes.go", "region/c02_correlation.go"],
+    "files": ["region/fakes.go", "region/c02_correlation.go", "region/c15_compressor.go"],
     "claim": "CALLS single gets/puts sent on one connection and answered in every order, each response with 0..CELLS cells tagged "
              "with its request: every caller receives exactly the response and cells produced for its request. CALLS calls grouped into "
              "one multi-request over two regions (every grouping), answered with region results in request order, results inside a "
@@ -278,6 +278,8 @@ PROPS["C02"] = {
          "params": {"quick": {"CALLS": 2, "CELLS": 1, "protoMax": 1, "protoFixed": 1}, "thorough": {"CALLS": 3, "CELLS": 2, "protoMax": 1, "protoFixed": 1}}},
         {"name": "multi_correlation", "pkg": "region", "entry": "VerifMultiCorrelation", "stubs": RECV_STUBS, "reach": ["correlated"], "native_retries": 10,
          "params": {"quick": {"CALLS": 2, "CELLS": 1, "protoMax": 1, "protoFixed": 1}, "thorough": {"CALLS": 3, "CELLS": 2, "protoMax": 1, "protoFixed": 1}}},
+        {"name": "compressed_cells", "pkg": "region", "entry": "VerifCompressedCells", "stubs": RECV_STUBS, "reach": ["held"], "native_retries": 5,
+         "params": {"quick": {"protoMax": 1, "protoFixed": 1}, "thorough": {"protoMax": 1, "protoFixed": 1}}},
         {"name": "concurrent_register", "pkg": "region", "entry": "VerifConcurrentRegister", "reach": ["registered"],
          "preempts": {"quick": 2, "thorough": 3}, "params": {"quick": {}, "thorough": {}}},
     ],
